@@ -9,7 +9,7 @@ D="$1"; [ -n "$D" ] || { echo "usage: $0 <dir>"; exit 2; }
 VERIF="$(cd "$(dirname "$0")/.." && pwd)"
 mkdir -p "$D"
 rsync -a --exclude target --exclude .git /repo/ "$D/repo/"
-( cd "$D/repo" && git init -q && git add -A >/dev/null && git -c user.email=x@x -c user.name=x commit -qm base >/dev/null )
+( cd "$D/repo" && git init -q 2>/dev/null; git add -A >/dev/null; git -c user.email=x@x -c user.name=x commit -qm base >/dev/null 2>&1 || true )
 rsync -a --exclude work --exclude replays --exclude .git --exclude evidence "$VERIF/" "$D/verif/"
 mkdir -p "$D/verif/evidence"
 find "$D/verif/harness" \( -name '*.rs' -o -name Cargo.toml \) -not -path '*/target/*' | xargs sed -i "s#\"/repo/#\"$D/repo/#g"
